@@ -166,3 +166,16 @@ var overlapPinned = map[string][]string{
 	},
 	"cumulus_linux/root_login": {"configuration>exec", "exec>configuration"},
 }
+
+// hostToken is the part of a platform's canonical prompts that stands for the device's hostname;
+// the "customised levels" sessions replace it by a hostile-but-legal hostname.
+var hostToken = map[string]string{
+	"arista_eos": "localhost", "aruba_wlc": "aruba-7010", "cisco_iosxe": "csr1000v", "cisco_iosxr": ":ios", "cisco_nxos": "switch",
+	"cumulus_linux": "leaf01", "cumulus_vtysh": "leaf01", "hp_comware": "HPE", "huawei_vrp": "HUAWEI", "ipinfusion_ocnos": "OcNOS",
+	"juniper_junos": "vrnetlab", "nokia_srl": ":srl", "nokia_sros": "@sros", "nokia_sros_classic": ":sros", "paloalto_panos": "PA-VM",
+	"ruijie_rgos": "Ruijie", "vyatta_vyos": "@vyos",
+}
+
+// hostileHosts: hostnames with characters the shipped hostname classes do not admit (none of them
+// is a prompt terminator or white space).
+var hostileHosts = []string{"rtr1[edge]", "core{2}", "sw+lab~1", "r1=dc,a"}
